@@ -179,7 +179,8 @@ func (c *Ctx) discoverDispatchers(pkgRels []string, ifaceQ, implPkg string) []st
 					miss = append(miss, tn.Name())
 				}
 			}
-			out = append(out, fmt.Sprintf("%s over %s: %d/%d covered, default=%v, missing=%v", f.Name, shortIface(ifaceQ), len(impls)-len(miss), len(impls), def, miss))
+			dp := defaultPanics(f, func(t types.Type) bool { return types.Identical(t, itn.Type()) })
+			out = append(out, fmt.Sprintf("%s over %s: %d/%d covered, default=%v panics=%v, missing=%v", f.Name, shortIface(ifaceQ), len(impls)-len(miss), len(impls), def, dp, miss))
 		}
 	}
 	sort.Strings(out)
@@ -684,4 +685,46 @@ func (c *Ctx) checkCaseFieldCoverage(rule string, d dispatcher, nodeIface string
 		return true
 	})
 	return n
+}
+
+// defaultPanics reports whether a type switch over the wanted operand type in
+// f has a default clause that panics (directly).
+func defaultPanics(f *Fn, want func(types.Type) bool) bool {
+	info := f.Info()
+	found := false
+	ast.Inspect(f.Body, func(n ast.Node) bool {
+		ts, ok := n.(*ast.TypeSwitchStmt)
+		if !ok {
+			return true
+		}
+		var x ast.Expr
+		switch a := ts.Assign.(type) {
+		case *ast.AssignStmt:
+			x = a.Rhs[0].(*ast.TypeAssertExpr).X
+		case *ast.ExprStmt:
+			x = a.X.(*ast.TypeAssertExpr).X
+		}
+		if t := info.TypeOf(x); t == nil || !want(t) {
+			return true
+		}
+		for _, cl := range ts.Body.List {
+			cc := cl.(*ast.CaseClause)
+			if cc.List != nil {
+				continue
+			}
+			for _, st := range cc.Body {
+				ast.Inspect(st, func(y ast.Node) bool {
+					if call, ok := y.(*ast.CallExpr); ok {
+						nm := calleeName(info, call)
+						if nm == "panic" || strings.HasSuffix(nm, ".Assertf") || strings.HasSuffix(nm, "Fatalf") {
+							found = true
+						}
+					}
+					return true
+				})
+			}
+		}
+		return true
+	})
+	return found
 }
